@@ -229,3 +229,56 @@ RANDOM_SRC = {
     "rnd_uniform": "da.random.RandomState(3).uniform(size={shape}, chunks=2)",
 }
 RANDOM_SHAPES = [(6,), (8,), (3, 4), (4, 4)]
+
+
+# ---- recording block functions for C20 (block_info / block_id)
+LOG = []
+
+
+def _cs(info):
+    """chunk shape of an input as block_info describes it ('chunk-shape' is
+    only documented for the output entry; array-location always carries it)."""
+    if "chunk-shape" in info:
+        return tuple(info["chunk-shape"])
+    return tuple(int(b) - int(a) for a, b in info["array-location"])
+
+
+def rec_info(b, block_info=None):
+    if block_info is not None and getattr(b, "size", 0):
+        i0 = block_info[0]
+        LOG.append({"kind": "info", "loc": tuple(i0["chunk-location"]), "aloc": [tuple(t) for t in i0["array-location"]], "cshape": _cs(i0), "nchunks": tuple(i0["num-chunks"]), "shape": tuple(i0["shape"]), "bshape": tuple(b.shape), "out": {k: (tuple(v) if isinstance(v, (list, tuple)) else v) for k, v in block_info[None].items() if k in ("chunk-location", "chunk-shape", "num-chunks", "shape")}})
+    return b
+
+
+def rec_id(b, block_id=None):
+    if block_id is not None and getattr(b, "size", 0):
+        LOG.append({"kind": "id", "loc": tuple(block_id), "bshape": tuple(b.shape)})
+    return b
+
+
+def rec_both(b, block_info=None, block_id=None):
+    if block_info is not None and block_id is not None and getattr(b, "size", 0):
+        i0 = block_info[0]
+        LOG.append({"kind": "both", "loc": tuple(i0["chunk-location"]), "id": tuple(block_id), "aloc": [tuple(t) for t in i0["array-location"]], "cshape": _cs(i0), "nchunks": tuple(i0["num-chunks"]), "shape": tuple(i0["shape"]), "bshape": tuple(b.shape)})
+    return b
+
+
+def rec_two(b, c, block_info=None):
+    if block_info is not None and getattr(b, "size", 0):
+        LOG.append({"kind": "two", "loc": tuple(block_info[0]["chunk-location"]), "aloc": [tuple(t) for t in block_info[0]["array-location"]], "cshape": _cs(block_info[0]), "nchunks": tuple(block_info[0]["num-chunks"]), "shape": tuple(block_info[0]["shape"]), "bshape": tuple(b.shape),
+                    "loc1": tuple(block_info[1]["chunk-location"]), "cshape1": _cs(block_info[1]), "cbshape": tuple(c.shape)})
+    return b + c
+
+
+def rec_newaxis(b, block_info=None):
+    if block_info is not None and getattr(b, "size", 0):
+        i0 = block_info[0]
+        LOG.append({"kind": "info", "loc": tuple(i0["chunk-location"]), "aloc": [tuple(t) for t in i0["array-location"]], "cshape": _cs(i0), "nchunks": tuple(i0["num-chunks"]), "shape": tuple(i0["shape"]), "bshape": tuple(b.shape)})
+    return b[None]
+
+
+def rec_dropaxis(b, block_info=None):
+    if block_info is not None and getattr(b, "size", 0):
+        i0 = block_info[0]
+        LOG.append({"kind": "info", "loc": tuple(i0["chunk-location"]), "aloc": [tuple(t) for t in i0["array-location"]], "cshape": _cs(i0), "nchunks": tuple(i0["num-chunks"]), "shape": tuple(i0["shape"]), "bshape": tuple(b.shape)})
+    return b.sum(axis=0)
